@@ -2,7 +2,9 @@ import BsVerif.Core.Proto
 import BsVerif.Model.Dap
 /-! Line-protocol adapter of the DAP models.
 `C12 new <sid> <variant> <force>`            → `ok` (fresh session)
-`C12 req <seq> <command> <mutation> <param> h:<outcome> ts:<n> te:<n> [h:evok|h:everr]`
+`C12 pipe`                                   → `ok` (the next request is sent while the previous one is still being
+                                               executed: no effect on a sequential session)
+`C12 req <seq> <command> <mutation> <param> h:<outcome> [tl:<ids>|tl:none] [h:ok|h:fail] [pg:<n>] [nrec:<n>] [dbg:<alive|gone|unload>]`
                                              → canonical list of the messages the session writes
 `C12 sched <writer ids>`                     → the sequence numbers in wire order (writer model) -/
 namespace Driver.C12
@@ -20,15 +22,18 @@ def decMut? : String → Option Mut
 def qevName : QEv → String
   | .capabilities => "capabilities" | .process => "process"
   | .moduleNew => "module.new" | .sourceNew => "loadedSource.new"
-  | .threadStarted => "thread.started" | .threadExited => "thread.exited"
+  | .threadStarted t => "thread.started." ++ toString t | .threadExited t => "thread.exited." ++ toString t
   | .stopped r => "stopped." ++ r | .continued => "continued"
   | .bpChanged => "breakpoint.changed" | .bpRemoved => "breakpoint.removed"
+  | .progressStart n => "progressStart." ++ toString n | .progressUpdate n => "progressUpdate." ++ toString n
+  | .progressEnd n => "progressEnd." ++ toString n | .invalidated => "invalidated"
+  | .initialized => "initialized"
 
 def evName : Ev → String
   | .q e => qevName e
   | .initialized => "initialized"
   | .moduleRemoved => "module.removed" | .sourceRemoved => "loadedSource.removed"
-  | .threadExitedAtEnd => "thread.exited"
+  | .threadExitedAtEnd t => "thread.exited." ++ toString t
   | .exited => "exited" | .terminated => "terminated"
 
 def msgTok : Msg → String
@@ -36,25 +41,69 @@ def msgTok : Msg → String
   | .event e => "E." ++ evName e
   | .sessionEnd => "end"
 
-def decHints (ts : List String) : Option Hint :=
-  ts.foldlM (init := ({} : Hint)) fun h t =>
-    if t == "h:exit" then some { h with outcome := .exit }
-    else if t == "h:none" then some { h with outcome := .none }
-    else if t == "h:evok" then some { h with evalOk := true }
-    else if t == "h:everr" then some { h with evalOk := false }
-    else if t.startsWith "h:stop:" then some { h with outcome := .stop (t.drop 7).toString }
-    else if t.startsWith "ts:" then (decNat? (t.drop 3).toString).map fun n => { h with threadsStarted := n }
-    else if t.startsWith "te:" then (decNat? (t.drop 3).toString).map fun n => { h with threadsExited := n }
+/-- sort key of a thread event: `started` before `exited`, then by thread id (the adapter iterates hash
+sets / hash-map keys: the order inside one batch is not part of the protocol) -/
+def threadKey : Msg → Option (Nat × Nat)
+  | .event (.q (.threadStarted t)) => some (0, t)
+  | .event (.q (.threadExited t)) => some (1, t)
+  | .event (.threadExitedAtEnd t) => some (1, t)
+  | _ => none
+
+def insertByKey (k : Nat × Nat) (m : Msg) : List ((Nat × Nat) × Msg) → List ((Nat × Nat) × Msg)
+  | [] => [(k, m)]
+  | (k', m') :: r =>
+    if k.1 < k'.1 || (k.1 == k'.1 && k.2 < k'.2) then (k, m) :: (k', m') :: r else (k', m') :: insertByKey k m r
+
+/-- sort every maximal run of adjacent thread events (the harness does the same to the wire) -/
+def normRuns (run : List ((Nat × Nat) × Msg)) : List Msg → List Msg
+  | [] => run.map (·.2)
+  | m :: r =>
+    match threadKey m with
+    | some k => normRuns (insertByKey k m run) r
+    | none => run.map (·.2) ++ m :: normRuns [] r
+
+structure PHint where
+  h : Hint := {}
+  hasTl : Bool := false
+
+def decHints (ts : List String) : Option PHint :=
+  ts.foldlM (init := ({} : PHint)) fun p t =>
+    if t == "h:exit" then some { p with h := { p.h with outcome := .exit } }
+    else if t == "h:none" then some { p with h := { p.h with outcome := .none } }
+    else if t == "h:ok" then some { p with h := { p.h with callOk := true } }
+    else if t == "h:fail" then some { p with h := { p.h with callOk := false } }
+    else if t.startsWith "h:stop:" then some { p with h := { p.h with outcome := .stop (t.drop 7).toString } }
+    else if t == "tl:none" then some { p with hasTl := false }
+    else if t.startsWith "tl:" then (decList? decNat? (t.drop 3).toString).map fun l => { h := { p.h with tl := l }, hasTl := true }
+    else if t == "dbg:alive" then some { p with h := { p.h with dbgAfter := .inProgress } }
+    else if t == "dbg:gone" then some { p with h := { p.h with dbgAfter := .exited } }
+    else if t == "dbg:unload" then some { p with h := { p.h with dbgAfter := .unload } }
+    else if t.startsWith "pg:" then (decNat? (t.drop 3).toString).map fun n => { p with h := { p.h with pg := n } }
+    else if t.startsWith "nrec:" then (decNat? (t.drop 5).toString).map fun n => { p with h := { p.h with nrec := n } }
     else none
+
+def hasRefresh : List Act → Bool
+  | [] => false
+  | .refresh _ :: _ => true
+  | _ :: r => hasRefresh r
 
 def step (st : St) : List String → St × String
   | ["new", _, _, _] => ({ s := {} }, "ok")
+  | ["pipe"] => (st, "ok")
   | "req" :: q :: c :: m :: p :: hs =>
     match decNat? q, decCmd? c, decMut? m, decNat? p, decHints hs with
-    | some q, some c, some m, some p, some h =>
-      match runStep st.s { seq := q, cmd := c, mutn := m, param := p } h with
-      | none => (st, "closed")
-      | some (s', out) => ({ s := s' }, encList msgTok out)
+    | some q, some c, some m, some p, some ph =>
+      let r : Req := { seq := q, cmd := c, mutn := m, param := p }
+      -- the harness has no live process to attach to: a well-formed `attach` to one is not part of the grammar
+      if c == .attach && m == .valid then (st, "bad-op")
+      else if !st.s.alive then (st, "closed")
+      -- the thread list is an observation of the debugger at a refresh: it must be there exactly when the
+      -- skeleton of this request refreshes the thread cache
+      else if hasRefresh (fullPlan st.s r ph.h) != ph.hasTl then
+        (st, if ph.hasTl then "refresh-not-expected" else "refresh-expected")
+      else match runStep st.s r ph.h with
+        | none => (st, "closed")
+        | some (s', out) => ({ s := s' }, encList msgTok (normRuns [] out))
     | _, _, _, _, _ => (st, "bad-op")
   | ["sched", ws] =>
     match decList? decNat? ws with
